@@ -33,13 +33,16 @@ package listMap
 // The iteration protocol (C05: a callback that is called again after it returned false panics inside a range-over-func
 // loop): `yields yield` generates the obligation protocol:yield-not-called-after-stop. What yield itself does is the
 // caller's business: the frame is what Iter does besides calling it (trusted, the calls of yield are not part of it).
+// The summary callers rely on (`iterates`: entry cbidx of the slice at call number cbidx, all of them unless stopped)
+// is checked against the body as well (option iterates-checked: protocol:yield-called-as-summarised / -called-count-times).
 //@ func (l ListMap[V]) Iter
-//@   property C05
+//@   property C05, C13
 //@   yields yield
 //@   iterates yield count len(l) args l[cbidx].key, l[cbidx].value
 //@   assigns nothing
 //@   option frame-trusted
-//@   loop 1 invariant !yieldstopped() && !yieldbad()
+//@   option iterates-checked
+//@   loop 1 invariant !yieldstopped() && !yieldbad() && yieldcount() == rangeidx && 0 <= rangeidx && rangeidx <= len(l)
 
 //@ func New
 //@   ensures[empty] len(result) == 0 && fresh(result)
